@@ -375,12 +375,28 @@ SUMMARIES = {"_log_counter": log_counter_summary, "_counter2value": counter2valu
 def _summary_units(F):
     """Summarised kernels and their kernel callees (the random-token source of the probabilistic increment) stay units."""
     out = set(SUMMARIES)
+
+    def draws(f):
+        return any(isinstance(n, ast.Call) and (dotted(n.func) or "").startswith(("np.random.", "numpy.random.")) for n in walk_no_nested(f.node))
     for name in SUMMARIES:
         for mod in F.model.modules.values():
             f = mod.funcs.get(name)
-            if f is not None:
-                # (a scalar-only helper is a pure expression: it is walked inline like any other extracted sub-expression)
-                out |= {c.callee.name for c in F.calls_from(f) if c.callee.is_kernel and any(t.is_array or t.kind == "bytes" for t in c.callee.ptypes.values())}
+            if f is None:
+                continue
+            # (a scalar-only helper is a pure expression: it is walked inline like any other extracted sub-expression; so is an
+            # extracted step helper that merely passes the token arrays on -- the unit is the kernel that actually draws)
+            todo, seen = [f], set()
+            while todo:
+                g = todo.pop()
+                for c in F.calls_from(g):
+                    cal = c.callee
+                    if not cal.is_kernel or cal.key in seen or not any(t.is_array or t.kind == "bytes" for t in cal.ptypes.values()):
+                        continue
+                    seen.add(cal.key)
+                    if draws(cal) or not any(cc.callee.is_kernel for cc in F.calls_from(cal)):
+                        out.add(cal.name)
+                    else:
+                        todo.append(cal)
     return out
 
 
@@ -1169,6 +1185,10 @@ def rule_logstep(ctx):
                 res1.append((None, "assignment not understood"))
                 continue
             d = e.value.lin - e.old.lin
+            if d == Lin.const(0):
+                # `counter, ptr = step(counter, ...)` on the path where the step leaves the counter alone: no change
+                res1.append((True, "no change on this path", fact_strs(e)))
+                continue
             res1.append((d == Lin.const(1), "each change is +1" if d == Lin.const(1) else "counter changes by %s" % show_lin(d), fact_strs(e)))
             drew = any(c.kind == "call" and c.name == "_rand" and c.loops == e.loops for c in on_path(w.events, e))
             if drew:
